@@ -220,19 +220,25 @@ let run_disp_pred toks =
         let fw = if fwd = "-" then [] else List.map (fun t -> match String.split_on_char ':' t with
             | [a; c] -> { k_addr = z_of_string a; k_conn = z_of_string c }
             | _ -> failwith "disp_pred: bad fwd") (String.split_on_char ',' fwd) in
-        Some (rsts, fw, dobs_of_digest dg)
+        let syns = if sent = "-" then [] else
+            List.filter_map (fun t -> match String.split_on_char ':' t with
+                | [a; "4"; c; _; _] -> Some { k_addr = z_of_string a; k_conn = z_of_string c }
+                | _ -> None) (String.split_on_char ',' sent) in
+        Some (rsts, fw, dobs_of_digest dg, syns)
       | _ -> None in
     let rec go pre i = function
       | [] -> "OK"
       | tok :: rest ->
         (match parse tok with
          | None -> "OK"     (* PANIC / ARM-NOT-* tokens end the usable part of the trace *)
-         | Some (rsts, fw, post) ->
+         | Some (rsts, fw, post, syns) ->
            let o = { so_pre = pre; so_rsts = z_of_int rsts; so_fwd = fw; so_post = post } in
            let ok = (if which = "c13" then c13_step_ok o else c12_step_ok (z_of_string max_streams) o) in
-           if ok then go post (i + 1) rest else Printf.sprintf "FAIL %s_step_ok step=%d" which i) in
+           if not ok then Printf.sprintf "FAIL %s_step_ok step=%d" which i
+           else if which = "c12" && not (c12_syn_fresh_ok pre syns) then Printf.sprintf "FAIL c12_syn_fresh_ok step=%d" i
+           else go post (i + 1) rest) in
     (match obs with
-     | first :: rest -> (match parse first with Some (_, _, d0) -> go d0 0 rest | None -> "OK")
+     | first :: rest -> (match parse first with Some (_, _, d0, _) -> go d0 0 rest | None -> "OK")
      | [] -> "OK")
   | _ -> failwith "disp_pred: bad case"
 
